@@ -25,6 +25,7 @@ type JobDef struct {
 	TimeoutS float64            `json:"timeout_s"`
 	Solver   string             `json:"solver"`
 	SolverTimeoutMs int         `json:"solver_timeout_ms"`
+	IncTimeoutMs    int         `json:"inc_timeout_ms"`
 	Samples  int                `json:"samples"`
 	Covers   []string           `json:"covers"` // cover points this job must reach
 }
@@ -249,7 +250,7 @@ func RunCheck(root, property, tier string, seed int64, jobsN int, only string, v
 			sem <- struct{}{}
 			defer func() { <-sem }()
 			js := JobSpec{Entry: d.Entry, Pkg: repoMod + "/" + d.Pkg, Params: d.Params, MaxSteps: d.MaxSteps, MaxDepth: d.MaxDepth,
-				MaxPaths: d.MaxPaths, TimeoutS: d.TimeoutS, Solver: d.Solver, SolverTimeoutMs: d.SolverTimeoutMs, InitPkgs: spec.InitPkgs, Samples: d.Samples}
+				MaxPaths: d.MaxPaths, TimeoutS: d.TimeoutS, Solver: d.Solver, SolverTimeoutMs: d.SolverTimeoutMs, IncTimeoutMs: d.IncTimeoutMs, InitPkgs: spec.InitPkgs, Samples: d.Samples}
 			if js.Samples == 0 {
 				js.Samples = 4
 			}
@@ -473,6 +474,8 @@ func writeEvidence(root string, spec *CheckSpec, tier string, seed int64, P *Pro
 		solver.Errors += r.Solver.Errors
 		solver.WallS += r.Solver.WallS
 		solver.Skipped += r.Solver.Skipped
+		solver.OneShot += r.Solver.OneShot
+		solver.HardTimeouts += r.Solver.HardTimeouts
 		if r.Solver.MaxS > solver.MaxS {
 			solver.MaxS = r.Solver.MaxS
 		}
@@ -523,7 +526,7 @@ func writeEvidence(root string, spec *CheckSpec, tier string, seed int64, P *Pro
 	cov["path_space_exhausted_within_bounds"] = exhaustive
 	cov["interpreter_steps"] = steps
 	cov["solver"] = map[string]interface{}{"backend": "z3 4.8.12 (one process per job, push/pop)", "queries": solver.Queries, "sat": solver.Sat, "unsat": solver.Unsat, "unknown": solver.Unknown, "errors": solver.Errors,
-		"answered_by_model_evaluation": solver.Skipped, "wall_s": round2(solver.WallS), "max_query_s": round2(solver.MaxS)}
+		"answered_by_model_evaluation": solver.Skipped, "one_shot_fallbacks": solver.OneShot, "hard_timeouts": solver.HardTimeouts, "wall_s": round2(solver.WallS), "max_query_s": round2(solver.MaxS)}
 	cov["load_and_ssa_build_s"] = round2(loadS)
 	cov["jobs"] = jobSumm
 	cov["inconclusive"] = incon
